@@ -3,6 +3,42 @@ from . import core
 from .report import Check
 from .rules import cw, ed, mt, ts, vg, pm, ax, kb, dp, sg, uw, sm, fs, tc, ge, nl, sp, gw, rt
 from . import selftest
+import functools
+import inspect
+import types
+
+
+def _resilient(mod):
+    """A rule that cannot be applied (its anchor vanished, it cannot identify the objects it talks about) must not keep the other rules
+    of the property from running: what they report on the same tree is still a report.  Every rule entry point `rule(P, C, ...)` of
+    the rule modules records an AnalysisBroken (or an internal error on an unexpected shape) in core.BROKEN and returns; Check.finish
+    turns the record into exit 2 — unless a rule that did run reports a violation, which is then what the check says (exit 1)."""
+    for name, fn in list(vars(mod).items()):
+        if not isinstance(fn, types.FunctionType) or fn.__module__ != mod.__name__ or name.startswith("_"):
+            continue
+        try:
+            ps = list(inspect.signature(fn).parameters)
+        except (TypeError, ValueError):
+            continue
+        if ps[:2] != ["P", "C"]:
+            continue
+
+        def make(fn=fn, name=name):
+            @functools.wraps(fn)
+            def w(*a, **k):
+                try:
+                    return fn(*a, **k)
+                except core.AnalysisBroken as e:
+                    core.BROKEN.append("%s.%s: %s" % (mod.__name__.split(".")[-1], name, e))
+                except (KeyError, IndexError, TypeError, ValueError, AttributeError, StopIteration) as e:
+                    core.BROKEN.append("%s.%s: internal error on a shape the rule does not know (%s: %s)" % (mod.__name__.split(".")[-1], name, type(e).__name__, e))
+                return None
+            return w
+        setattr(mod, name, make())
+
+
+for _m in (cw, ed, mt, ts, vg, pm, ax, kb, dp, sg, uw, sm, fs, tc, ge, nl, sp, gw, rt):
+    _resilient(_m)
 
 
 def c18(tier):
@@ -333,6 +369,8 @@ def c03(tier):
     dp.re1(P, C)
     n = dp.cl1(P, C)
     dp.cl2(P, C)
+    # each path selects its basis kernels from the selector alone (every bit of the mask, every derivative order)
+    dp.cl4(P, C)
     cw.cw5(P, C)
     # the C interface asks the table on every path: it does not decide by itself which tables to evaluate
     cw.cw9(P, C)
@@ -402,6 +440,9 @@ def c10(tier):
     # permutation that was handed in
     sp.sp6(P, C)
     sp.sp7(P, C)
+    # entries of the normal matrix are dropped only below machine epsilon; the right-hand side has a value in every entry
+    sp.sp8(P, C)
+    gw.gw9(P, C)
     # clause 2 (inactive constraint returns the unconstrained fit) needs the solver to run to its optimum
     sg.sg7(P, C)
     sp.mm1(P, C)
@@ -441,6 +482,7 @@ def c11(tier):
     sp.sp5(P, C)
     sp.sp6(P, C)
     sp.sp7(P, C)
+    sp.sp8(P, C)
     return C.finish()
 
 
@@ -533,6 +575,8 @@ def c06(tier):
     fs.fs9(P, C)
     # what the pixel reads stored is what the table holds
     fs.fs13(P, C)
+    # the layout names the extensions, it does not order them
+    sm.fs14(P, C)
     return C.finish()
 
 
@@ -581,6 +625,8 @@ def c09(tier):
     gw.iw1(P, C)
     ge.gw8(P, C)
     ge.ge7(P, C)
+    # the right-hand side handed to the solver has a value in every entry (a spline without data under it: zero)
+    gw.gw9(P, C)
     C.extra["units"] = sorted(P.units.keys())
     C.extra["not_decided"] = ["optimality", "polynomial reproduction", "index arithmetic of box/slicemultiply/kronecker_product", "divided_diffs formula"]
     return C.finish()
